@@ -107,7 +107,11 @@ pub fn reset(prop: &'static str, name: String, params: Value) -> Scenario {
         // how the first connection ends: 0 = end-of-stream, recorded by the hook (a resume);
         // 1 = the write of the PUBREC itself fails and the Context is simply connected again (the
         // session bookkeeping lives on): the message has been handed to the application once
-        let failed_write = !expired && chz.choose(2) == 1;
+        let how = if expired { 0 } else { chz.choose(3) };
+        let failed_write = how == 1;
+        // 2 = the server ends the connection gracefully (DISCONNECT reason 0) and the Context is
+        // connected again: the bookkeeping of unreleased identifiers lives on
+        let graceful = how == 2;
         let pid = [1u16, 300, 65535][chz.choose(3)];
         let released_before = chz.choose(2) == 1;
         let mut sys = Sys::new(prop, &name, chz);
@@ -139,7 +143,9 @@ pub fn reset(prop: &'static str, name: String, params: Value) -> Scenario {
             sys.apply(Ev::WriteErr);
         }
         sys.apply(Ev::Deliver(inbound(2, false, pid, &sid, "first")));
-        if !failed_write {
+        if graceful {
+            sys.apply(Ev::Deliver(SPacket::Disconnect { reason: 0, props: vec![], form: 1 }));
+        } else if !failed_write {
             if released_before {
                 sys.apply(Ev::Deliver(pubrel_in(pid)));
             }
@@ -148,7 +154,7 @@ pub fn reset(prop: &'static str, name: String, params: Value) -> Scenario {
         if sys.dead {
             return sys.report(ex, &[]);
         }
-        if failed_write {
+        if failed_write || graceful {
             sys.events.push("Reconnect".into());
             sys.classes.push("Reconnect".into());
             sys.w.new_wire();
